@@ -522,7 +522,10 @@ impl<'a> LiveEvents<'a> {
                 Event::DocumentEnd => {
                     // On document end: in single-document mode, mark and stop producing events.
                     self.reset_document_state();
-                    self.seen_doc_end = true;
+                    // Only an explicit `...` marker (a non-empty span) ends the document in the
+                    // sense that whatever follows it may be ignored; the implicit end the parser
+                    // reports after a complete root node does not.
+                    self.seen_doc_end = span.end.index() > span.start.index();
                     self.last_location = location;
                     if self.stop_at_doc_end {
                         // One-step lookahead to distinguish multi-doc streams from garbage
